@@ -279,6 +279,9 @@ _SAFE_STR_METHODS = {"join", "format", "lower", "upper", "strip", "replace", "sp
 
 class PureEval:
     """Evaluator for the pure subset used by module-level initialisers."""
+    ext_hook = None
+    globals_decl = None
+    allow_methods = False
 
     def __init__(self, model, mod, env, budget=400000):
         self.model = model
@@ -640,8 +643,12 @@ class PureEval:
                 for a in args:
                     self._need_concrete(a)
             try:
+                for a in kwargs.values():
+                    self._need_concrete(a)
                 if name == "enumerate":
-                    return list(enumerate(*args))
+                    return list(enumerate(*args, **kwargs))
+                if name in ("zip", "reversed", "range") and kwargs:
+                    raise Undecided("keyword arguments to " + name)
                 if name == "zip":
                     return list(zip(*args))
                 if name == "reversed":
@@ -691,8 +698,11 @@ class PureEval:
         local = dict(fr.closure or {})
         params = [a.arg for a in node.args.args]
         defaults = node.args.defaults
-        if node.args.vararg or node.args.kwarg or node.args.kwonlyargs:
+        if node.args.kwarg or node.args.kwonlyargs:
             raise Undecided("complex signature")
+        if node.args.vararg:
+            local[node.args.vararg.arg] = tuple(args[len(params):])
+            args = list(args[:len(params)])
         for i, p in enumerate(params):
             if i < len(args):
                 local[p] = args[i]
@@ -920,6 +930,16 @@ class RuleBase:
             self.rule_mods.append(mod)
             env = model.env(mn)
             ev = PureEval(model, mod, env)
+            # the rule table is read off the decorators of the module-level functions; a rule that
+            # is registered by code (rule(...)(fn) in a factory or a loop) is not in that table
+            deco_calls = {id(d) for st in mod.tree.body if isinstance(st, ast.FunctionDef)
+                          for d in st.decorator_list}
+            for n in ast.walk(mod.tree):
+                if isinstance(n, ast.Call) and _callee_name(n.func) == "rule" and id(n) not in deco_calls:
+                    raise AnalysisError(
+                        "{}:{}: a production is registered by a call of rule() that is not the decorator of "
+                        "a module-level function; the rule table cannot be read off the source".format(
+                            mod.rel, getattr(n, "lineno", 0)))
             for st in mod.tree.body:
                 if not isinstance(st, ast.FunctionDef):
                     continue
@@ -992,6 +1012,7 @@ class Registration:
 
 
 def _rule_map_func(model):
+    """(inlined rule module, function to simulate, is it the whole decorator factory?)"""
     from .inline import inlined_module
     key = "_inl_rule"
     im = getattr(model, key, None)
@@ -999,9 +1020,13 @@ def _rule_map_func(model):
         im = inlined_module(model.mod("ctparse.rule"))
         setattr(model, key, im)
     f = im.funcs.get("rule._map")
+    if f is not None:
+        return im, f, False
+    # the pattern mapping is not a closure of rule(): simulate rule(<text>) itself
+    f = im.funcs.get("rule")
     if f is None:
-        raise AnalysisError("anchor vanished: rule._map")
-    return im, f
+        raise AnalysisError("anchor vanished: rule() in ctparse/rule.py")
+    return im, f, True
 
 
 def simulate_registration(model, text, counter=None, prefill=None):
@@ -1009,7 +1034,7 @@ def simulate_registration(model, text, counter=None, prefill=None):
     with its private helpers inlined) on a private copy of the module state: the counter set to
     *counter*, the tables empty or, for *prefill* = {table name: {key: value}}, pre-filled.  The
     external regex.compile() is not run; its arguments are recorded."""
-    im, f = _rule_map_func(model)
+    im, f, _whole = _rule_map_func(model)
     base = model.env("ctparse.rule")
     genv = dict(base)
     tables = [k for k, v in base.items() if isinstance(v, dict) and not v]
